@@ -475,8 +475,8 @@ not have any effect."""
         >>> print(len(c))
         10
         """
-        if isgenerator(lits):
-            lits = list(lits)
+        # (any iterable: it is scanned more than once)
+        lits = list(lits)
         if check:
             # dummy constraint, just to check the literals once
             self._check_and_update([(1,l) for l in lits]+ ['==',0])
@@ -486,9 +486,7 @@ not have any effect."""
         n = len(lits)
         if value < 0 or value > n:
             return
-        # a private copy: literals are flipped in place (and the caller
-        # may have given a tuple or a range)
-        lits = list(lits)
+        # (`lits` is a private copy: literals are flipped in place)
         for flips in combinations(range(n), value):
             for i in flips:
                 lits[i] *= -1
